@@ -351,6 +351,8 @@ def run(ctx):
     findall_correspondence(ctx, [('case%d' % i, c[0]) for i, c in enumerate(ALL_CASES)], 'directed')
     findall_correspondence(ctx, [('gen%d' % i, all_program(ctx.rng)) for i in range(ctx.scale(300, 6000))], 'generated')
     findall_correspondence(ctx, [(i, s) for i, s in sample[:ctx.scale(80, 800)]], 'scope-programs')
+    from props import c09
+    c09.freeze_correspondence(ctx, sample[:ctx.scale(150, 2500)] + [('case%d' % i, c[0]) for i, c in enumerate(ALL_CASES)], 'preserve-lists')
 
 
 def search(ctx):
